@@ -164,7 +164,20 @@ def observe_run(cls, ops, nqubit, gates=None, psi0=None, device_param=None, shot
             psi = circ.statevector(args["psi0"])
             return np.square(np.absolute(psi))
         return np.ones(2 ** circ.nqubit) / 2 ** circ.nqubit
-    S._single_shot = shot
+    orig_apply = S._apply_gates_on_circuit
+
+    def apply(data, circ, dpar, lay):
+        orig_apply(data, circ, dpar, lay)
+        snap["state"] = state_of(circ)
+        snap["layout"] = [int(x) for x in lay]
+        snap["depth"] = getattr(circ, "depth", None)
+        snap["nqubit"] = circ.nqubit
+    if want_result:
+        # real gate set: the REAL _single_shot runs (it looks _apply_gates_on_circuit up at call time); only a snapshot is taken
+        S._apply_gates_on_circuit = apply
+    else:
+        # recording gate set: token matrices cannot be propagated, the shot stops after the build
+        S._single_shot = shot
     try:
         with contextlib.redirect_stdout(io.StringIO()):
             psi = psi0 if psi0 is not None else np.eye(1, 2 ** nqubit)[0].astype(complex)
@@ -173,6 +186,7 @@ def observe_run(cls, ops, nqubit, gates=None, psi0=None, device_param=None, shot
         return {"err": type(e).__name__, "msg": str(e)[:200]}
     finally:
         S._single_shot = orig
+        S._apply_gates_on_circuit = orig_apply
     out = dict(snap)
     out["calls"] = list(RecGates.calls)
     out["result"] = res
